@@ -1638,6 +1638,19 @@ def run(ctx):
                 import traceback
                 ctx.disagree({"fn": f"harness exception in {fn.__name__}"}, type(ex).__name__ + ": " + str(ex)[:300],
                              traceback.format_exc()[-600:])
+        # settings routing: the real shoot / wire_fencing / zero swaps / select_shoot, what they hand to modify_velocities
+        try:
+            import sys as _sys
+            from props import c16_routes
+            c16_routes.run_routes(ctx, _sys.modules[__name__], mods, work)
+            _assume(ctx, c16_routes.ASSUMPTIONS)
+            from props import c16_flow
+            c16_flow.run_flow(ctx, _sys.modules[__name__], mods, work)
+            _assume(ctx, c16_flow.ASSUMPTIONS)
+        except Exception as ex:  # noqa: BLE001
+            import traceback
+            ctx.disagree({"fn": "harness exception in run_routes"}, type(ex).__name__ + ": " + str(ex)[:300],
+                         traceback.format_exc()[-600:])
         # chained regenerations (repeated kicks) on one engine object and one System
         for c in chain_cases(ctx):
             try:
@@ -1660,6 +1673,12 @@ def run(ctx):
                 ctx.count(1, branch="reproducibility")
         if not ctx.quick:
             moment_check(ctx, mods, work)
+            try:
+                from props import c16_routes as _r
+                import sys as _sys
+                _r.projected_moment_check(ctx, _sys.modules[__name__], mods, work)
+            except Exception as ex:  # noqa: BLE001  (supporting evidence only)
+                ctx.extra["projected_moment_check_supporting_evidence"] = {"error": type(ex).__name__ + ": " + str(ex)[:200]}
         os.chdir(cwd)
         run_c07_engine_streams(ctx)
         ctx.exhaustive = False
@@ -1699,6 +1718,23 @@ def replay(ctx, obj):
     """re-run one recorded failing input on the current implementation; 1 if it still fails"""
     mods = _imports()
     r = obj.get("replay", {})
+    if r.get("check") in ("helper", "gmass", "cp2k-temperature"):
+        import sys as _sys
+        from props import c16_routes
+        return c16_routes.replay_helper(ctx, _sys.modules[__name__], mods, r, obj)
+    if r.get("check") in ("route", "flow"):
+        import sys as _sys
+        from props import c16_flow, c16_routes
+        work = Path(tempfile.mkdtemp(prefix="c16-replay-", dir="/var/tmp"))
+        cwd = os.getcwd()
+        try:
+            os.chdir(work)
+            if r.get("check") == "flow":
+                return c16_flow.replay_flow(ctx, _sys.modules[__name__], mods, work, r, obj)
+            return c16_routes.replay_route(ctx, _sys.modules[__name__], mods, work, r, obj)
+        finally:
+            os.chdir(cwd)
+            shutil.rmtree(work, ignore_errors=True)
     case = r.get("case")
     if case is None:
         print("replay file holds no concrete case:", obj.get("kind"))
